@@ -191,7 +191,7 @@ PROPS["C14"] = {
         {"pkg": "sqlite", "dir": "sqlite", "entry": "VerifH_C14_sqlite", "extra": [("s3db_export", ".")], "no_native": True,
          "quick": {"workers": 16, "timeout": 1800}},
     ],
-    "bounds": "8 scenarios {read-only open+scan, writable open+scan, open+insert+commit+scan, range scan, vacuum+scan, descending scan below a bound above every key, begin+insert+commit with rollback and re-run of the transaction when the commit fails, open+UPDATE+commit+scan}; after a failed writable open every recorded finalizer is run (a garbage collection must find nothing to object to) x {one version, two unmerged versions} on a depth-2 table; fault position symbolic over every request of the scenario, kind (transport error | deadline) and persistence (single | persistent) symbolic",
+    "bounds": "8 scenarios {read-only open+scan, writable open+scan, open+insert+commit+scan, range scan, vacuum+scan (also after a history in which a row came and went, so that the vacuum returns the depth-2 tree to the content of its first version), descending scan below a bound above every key, begin+insert+commit with rollback and re-run of the transaction when the commit fails, open+UPDATE+commit+scan}; after a failed writable open every recorded finalizer is run (a garbage collection must find nothing to object to) x {one version, two unmerged versions} on a depth-2 table; fault position symbolic over every request of the scenario, kind (transport error | deadline) and persistence (single | persistent) symbolic",
     "outside": "the AWS SDK's own retry loop and wall-clock behaviour; s3db_changes under faults (C12)",
     "assumptions": [TIME_RANGE, "a fault is an error returned by the object store for the request (transport error or expired deadline); the request has no effect"],
 }
